@@ -86,7 +86,7 @@ SCEN = [
     # NB secfxp (integral) exponents: with secint arrays non-senders crash in this protocol for m > 1 (type(b)(..., integral=True))
     dict(name='np_pow', np=True, site='runtime._np_pow_public_int_base_secret_integral_exponent#0',
          func='_np_pow_public_int_base_secret_integral_exponent', typ=('fxp', 32), args=dict(base=-1), env=dict(VL=32, Vl=32, Vf=16), secret=[4, 7],
-         pair=([2], [2 + 2**14])),
+         pair=([2], [2 + 2**14]), search_mt=(5, 2)),
     dict(name='np_unit_vector', np=True, site='runtime.np_unit_vector#0', func='np_unit_vector', typ=('int', 32), args=dict(n=5),
          env=dict(VL=32, Vn=5), secret=3),
 ]
@@ -363,24 +363,26 @@ def run(ctx):
     # 2. build theories, the table and the statements
     ok = ctx.build(['MPyC.Stat']) and ctx.check_props(extra_files=['gen/MaskTable.v'])
 
-    # 3. one compiled obligation per row (in parallel): witness search, then the theorem itself
+    # 3. one compiled obligation per row: numeric rows one file each (in parallel), the others in one file
     failing = {}
     if ok:
         os.makedirs(os.path.join(COQ, 'cases'), exist_ok=True)
+        HEAD = ('From Coq Require Import ZArith List Bool String.\nRequire Import MPyC.Stat MPyCGen.MaskTable.\n'
+                'Import ListNotations.\n')
 
-        def obligation(r):
+        def thm(r):
             ident = G.coq_ident(r['site'])
-            base = 'C18obl_%d_%s' % (os.getpid(), ident)
+            return ('Theorem mask_ok_%s : forall e, In e (grid_envs %s) -> pre_holds %s e = true ->\n'
+                    '  forall prss, In prss (row_modes %s) -> row_ok_at %s prss e = true.\n'
+                    'Proof. apply row_ok_grid_sound. vm_cast_no_check (eq_refl true). Qed.\n'
+                    'Print Assumptions mask_ok_%s.\n' % ((ident,) * 6))
+
+        def compile_rows(rs, tag):
+            base = 'C18obl_%d_%s' % (os.getpid(), tag)
             fn = os.path.join(COQ, 'cases', base + '.v')
             with open(fn, 'w') as f:
-                f.write('From Coq Require Import ZArith List Bool String.\nRequire Import MPyC.Stat MPyCGen.MaskTable.\n'
-                        'Import ListNotations.\nSet Printing Width 100000.\n'
-                        'Eval vm_compute in (first_fail %s).\n'
-                        'Theorem mask_ok_%s : forall e, In e (grid_envs %s) -> pre_holds %s e = true ->\n'
-                        '  forall prss, In prss (row_modes %s) -> row_ok_at %s prss e = true.\n'
-                        'Proof. apply row_ok_grid_sound. vm_compute. reflexivity. Qed.\n'
-                        'Print Assumptions mask_ok_%s.\n' % (ident, ident, ident, ident, ident, ident, ident))
-            rc, out = sh(['coqc', *COQFLAGS, 'cases/' + base + '.v'], cwd=COQ, timeout=600)
+                f.write(HEAD + ''.join(thm(r) for r in rs))
+            rc, out = sh(['coqc', *COQFLAGS, 'cases/' + base + '.v'], cwd=COQ, timeout=900)
             for ext in ('.v', '.vo', '.vok', '.vos', '.glob'):
                 p = fn[:-2] + ext
                 if os.path.exists(p):
@@ -388,25 +390,49 @@ def run(ctx):
             aux = os.path.join(COQ, 'cases', '.' + base + '.aux')
             if os.path.exists(aux):
                 os.remove(aux)
-            vals = core.split_eval_output(out)
-            wit = None
-            try:
-                wit = core.parse_term(vals[0]) if vals else None
-            except Exception:
-                wit = ('unparsed', vals[0][:200])
-            closed = 'Closed under the global context' in out
-            return r, rc, wit, closed, out[-800:]
+            return rs, rc, out
 
-        with ThreadPoolExecutor(max_workers=12) as ex:
-            obl = list(ex.map(obligation, rows))
-        for r, rc, wit, closed, tail in obl:
-            ctx.obligations += 1
-            if rc == 0 and closed and wit is None:
-                ctx.discharged += 1
+        numeric = [r for r in rows if r['kind'] in ('KAdditive', 'KXorLow')]
+        others = [r for r in rows if r['kind'] not in ('KAdditive', 'KXorLow')]
+        ngroups = 6
+        groups = [numeric[i::ngroups] for i in range(ngroups)]
+        groups = [g for g in groups if g] + ([others] if others else [])
+
+        def compile_group(gi_rs):
+            """Theorems are compiled in order; the one after the last `Closed under` output is the failing one:
+            it is recorded and the rest of the group is compiled again without it."""
+            gi, rs = gi_rs
+            good, bad = [], []
+            part = 0
+            while rs:
+                part += 1
+                _, rc, out = compile_rows(rs, 'g%d_%d' % (gi, part))
+                n = out.count('Closed under the global context')
+                if rc == 0 and n == len(rs):
+                    good += rs
+                    break
+                n = min(n, len(rs) - 1)
+                good += rs[:n]
+                bad.append((rs[n], out[-600:]))
+                rs = rs[n + 1:]
+            return good, bad
+
+        with ThreadPoolExecutor(max_workers=8) as ex:
+            done = list(ex.map(compile_group, list(enumerate(groups))))
+        bad_rows = []
+        for good, bad in done:
+            ctx.obligations += len(good) + len(bad)
+            ctx.discharged += len(good)
+            for r in good:
                 ctx.theorems.append(('mask_ok[%s]' % r['site'], 'Closed under the global context'))
-            else:
-                failing[r['site']] = {'row': r, 'witness': wit, 'coqc': tail if wit is None else ''}
-        ctx.log('row obligations: %d compiled, %d failing: %s' % (len(obl) - len(failing), len(failing), sorted(failing)))
+            bad_rows += bad
+        if bad_rows:
+            wits = ctx.coq_eval(['MPyC.Stat', 'MPyCGen.MaskTable'],
+                                ['first_fail %s' % G.coq_ident(r['site']) for r, _ in bad_rows], chunk=1)
+            for (r, tail), w in zip(bad_rows, wits):
+                failing[r['site']] = {'row': r, 'witness': w, 'coqc': tail if not (isinstance(w, tuple) and w and w[0] == 'Some') else ''}
+        ctx.log('row obligations: %d of %d compiled (Qed, closed); failing: %s' % (
+            len(rows) - len(failing), len(rows), sorted(failing)))
 
     # 4. correspondence of the mask arithmetic in the simulator
     have_np = os.path.exists(PYNP)
@@ -456,7 +482,7 @@ def run(ctx):
             meta.append((site, tag, env, st, row))
     mism = 0
     if ok and exprs:
-        res = ctx.coq_eval(['MPyC.Stat', 'MPyCGen.MaskTable'], exprs, chunk=60)
+        res = ctx.coq_eval(['MPyC.Stat', 'MPyCGen.MaskTable'], exprs, chunk=120)
         for r, (site, tag, env, st, row) in zip(res, meta):
             ev = st['events']
             passed = sorted(set(-1 if b is None else b for b in ev['passed']))
@@ -546,14 +572,15 @@ def table_witness(row, G):
         return {'error': repr(exc)}
 
 
-def search(sc, python, ctx, reps=40):
+def search(sc, python, ctx, reps=30):
     """Two secrets with equal outputs, reps runs each (fresh randomness per run), opened values compared with a
     threshold distinguisher (threshold chosen on the first half of the samples, advantage measured on the second)."""
     res = {}
     for no_prss in (False, True):
         if sc.get('prss_only') and no_prss:
             continue
-        cfg = dict(m=3, t=1, no_prss=no_prss, K=8, seed=ctx.seed + 1,
+        mt = sc.get('search_mt', (3, 1))
+        cfg = dict(m=mt[0], t=mt[1], no_prss=no_prss, K=8, seed=ctx.seed + 1,
                    steps=[(sc['name'], sc['pair'][0], reps), (sc['name'], sc['pair'][1], reps)])
         out = spawn(cfg, python)
         if 'error' in out:
@@ -580,7 +607,7 @@ def search(sc, python, ctx, reps=40):
         n2 = min(len(va), len(vb)) - h
         bound = 2.0 ** (-8 + 2) + 3 * math.sqrt(0.5 / max(1, n2))
         res['prss' if not no_prss else 'noprss'] = {
-            'secrets': [sc['pair'][0], sc['pair'][1]], 'k': out['k'], 'm': 3, 't': 1,
+            'secrets': [sc['pair'][0], sc['pair'][1]], 'k': out['k'], 'm': mt[0], 't': mt[1],
             'outputs_equal': outs_a == outs_b or (isinstance(outs_a, list) and isinstance(outs_b, list) and outs_a[0] == outs_b[0]),
             'outputs': [str(outs_a[0])[:60], str(outs_b[0])[:60]] if isinstance(outs_a, list) and outs_a else None,
             'opened_range_secret0': [min(va), max(va)], 'opened_range_secret1': [min(vb), max(vb)],
